@@ -13,4 +13,8 @@ def run(c):
     A.validate_assembly_concrete(c)     # a mismatch makes the run inconclusive; the obligations still run, and what they find is reported only after native confirmation
     ct = A.conv_table_for([p for w in A.WRAPPERS_QUICK for p in w])
     A.obl_emoji(c, ct, thorough=(c.tier == "thorough"), budget_s=1500)   # carries the clause `transliteration_is_a_candidate` for every wrapper
+    # "of exactly what was typed": every event that ends a word leaves nothing of it in the text the next word is converted from
+    c.only_clauses = {"terminating_event_clears_composition"}
+    obl_phonetic.obl_phonetic_glue(c, 2 if c.tier == "quick" else 3, budget_s=900)
+    c.only_clauses = clauses.OWN["C03"]
     c.outside("whether okkhor implements Avro phonetic (okkhor is the oracle by definition); texts longer than the bounds")
